@@ -244,6 +244,24 @@ Proof.
   rewrite andb_false_r. reflexivity.
 Qed.
 
+(* a response that matches no shape is unshaped WHATEVER the previous response
+   left in the connection's context (offset, pending action, counts) *)
+Lemma respond_unmatched prev v acts thr rs hl :
+  shaping (fst (respond prev v acts thr false rs hl)) = false /\
+  next (fst (respond prev v acts thr false rs hl)) = None /\
+  snd (respond prev v acts thr false rs hl) = [].
+Proof. repeat split. Qed.
+
+Lemma nonmatching_after_any_context g ws prev v acts thr rs hl s' evs r :
+  run g (fst (respond prev v acts thr false rs hl)) ws = (s', evs, r) ->
+  forallb (fun e => negb (is_action_ev e)) evs = true /\ (forall n, r <> RClosed n) /\
+  exists rest, concat ws = emitted evs ++ rest /\ (is_ok r = true -> rest = []).
+Proof.
+  intros H.
+  destruct (run_unshaped g ws _ _ _ _ (proj1 (respond_unmatched prev v acts thr rs hl)) H) as [A B].
+  split; [exact A|]. split; [exact B|]. exact (run_delivers g ws _ _ _ _ H).
+Qed.
+
 (* ------------------------------------------------------------------ *)
 (* bucket rate                                                          *)
 (* ------------------------------------------------------------------ *)
